@@ -60,6 +60,9 @@ func classesOf(c Case, res simResult) (cl []string, cycle, tie, fault bool) {
 	if res.counts["deliver-pfx"] > 0 && multiHop(res) {
 		cl = append(cl, "multi-hop-prefix-fetch")
 	}
+	if res.drained > 0 {
+		cl = append(cl, "waited-for-operation-log")
+	}
 	var worst time.Duration
 	for _, sp := range res.points {
 		if sp.settled > worst {
